@@ -4,7 +4,7 @@
   All statements are about the functions of XgiModel/C16/Gen.lean that the driver runs, for every
   `n`, `m`, size list and every oracle (gap list / coin list / stub choices) — i.e. all seeds.
 -/
-import XgiModel.C16.LemmasGen
+import XgiModel.C16.LemmasSC
 
 namespace Xgi.C16
 
@@ -46,25 +46,15 @@ theorem comb_decode_injective (n m i j : Nat) (hi : i < Nat.choose n m) (hj : j 
   exact (List.getElem?_inj (by rw [combinations, length_combsAux]; exact hi) (nodup_combinations n m)).mp this
 
 /-- `[_index_to_edge_prod(i, n, m) for i in range(n**m)]` is `list(product(range(n), repeat=m))` -/
-theorem prod_decode (n m : Nat) : (List.range (n ^ m)).map (indexToEdgeProd n m) = product n m := by
-  rw [product_eq_block, ← part_decode, prodL_replicate]
-  apply List.map_congr_left
-  intro i _
-  exact prod_eq_part n m i
+theorem prod_decode (n m : Nat) : (List.range (n ^ m)).map (indexToEdgeProd n m) = product n m :=
+  prod_decode_l n m
 
 /-- `product(range(n), repeat=m)` = all `m`-tuples over `range n`, each once, `n^m` of them -/
 theorem product_spec (n m : Nat) :
     (∀ t, t ∈ product n m ↔ t.length = m ∧ ∀ x ∈ t, x < n) ∧ (product n m).Nodup ∧ (product n m).length = n ^ m := by
-  rw [product_eq_block]
-  refine ⟨?_, nodup_blockProduct _, by rw [length_blockProduct, prodL_replicate]⟩
-  intro t
-  rw [mem_blockProduct]
-  induction m generalizing t with
-  | zero => cases t <;> simp
-  | succ m ih =>
-    cases t with
-    | nil => simp [List.replicate_succ]
-    | cons a t => simp [List.replicate_succ, List.forall₂_cons, ih, and_left_comm]
+  refine ⟨mem_product n m, ?_, ?_⟩
+  · rw [product_eq_block]; exact nodup_blockProduct _
+  · rw [product_eq_block, length_blockProduct, prodL_replicate]
 
 /-- `[_index_to_edge_partition(i, sizes, len(sizes)) for i in range(prod(sizes))]` is
     `list(product(*[range(s) for s in sizes]))` -/
@@ -117,6 +107,231 @@ theorem fast_random_spec (n : Nat) (rounds : List (Nat × Prob)) (gaps : List Na
   · intro r hr hone e he
     exact h2 r hr hone e ((mem_combinations _ _ _).mpr he)
 
+
+/-- `random_hypergraph(n, ps, order)`, every coin sequence: edges are subsets of `range n` of a requested size;
+    no repeated edges when the orders differ; all coins `False` (p = 0) gives no edge, all `True` (p = 1) every one -/
+theorem random_hypergraph_spec (n : Nat) (sizes : List Nat) (coins : List Bool) (es : List (List Nat)) (rest : List Bool)
+    (h : coinRandom n sizes coins = some (es, rest)) :
+    (∀ e ∈ es, ∃ s ∈ sizes, e.length = s ∧ e.Pairwise (· < ·) ∧ ∀ x ∈ e, x < n) ∧ (sizes.Nodup → es.Nodup) ∧
+    ((∀ c ∈ coins, c = false) → es = []) ∧
+    ((∀ c ∈ coins, c = true) → ∀ s ∈ sizes, ∀ e, (e.length = s ∧ e.Pairwise (· < ·) ∧ ∀ x ∈ e, x < n) → e ∈ es) := by
+  obtain ⟨h1, h2, h3, h4, _⟩ := coinRandom_spec n sizes coins es rest h
+  refine ⟨?_, h2, h3, ?_⟩
+  · intro e he
+    obtain ⟨s, hs, hm⟩ := h1 e he
+    exact ⟨s, hs, (mem_combinations _ _ _).mp hm⟩
+  · intro ht s hs e he
+    exact h4 ht s hs e ((mem_combinations _ _ _).mpr he)
+
+/-! ### uniform models -/
+
+/-- `uniform_erdos_renyi_hypergraph`, every oracle: every edge has exactly `m` distinct members, all in `range n`;
+    without `multiedges` no edge is repeated; `q = 0` gives no edge, `q = 1` (no multiedges) the complete
+    `m`-uniform hypergraph -/
+theorem erdos_renyi_spec (n m : Nat) (multi : Bool) (p : Prob) (gaps : List Nat) (es : List (List Nat)) (rest : List Nat)
+    (hg : ∀ g ∈ gaps, 1 ≤ g) (h : erdosRenyi n m multi p gaps = some (es, rest)) :
+    (∀ e ∈ es, e.length = m ∧ e.Nodup ∧ ∀ x ∈ e, x < n) ∧ (multi = false → es.Nodup) ∧ (p = .zero → es = []) ∧
+      (p = .one → multi = false → es = combinations n m) :=
+  erdosRenyi_spec n m multi p gaps es rest hg h
+
+/-- `multiedges=True`, `q = 1` (all gaps 1): no error, and every `m`-tuple with distinct entries is produced -/
+theorem erdos_renyi_multi_one (n m : Nat) :
+    erdosRenyi n m true .one (List.replicate (n ^ m + 1) 1) = some (keepUniform m (product n m), []) ∧
+    ∀ t, t.length = m → (∀ x ∈ t, x < n) → t.Nodup → t ∈ keepUniform m (product n m) := by
+  constructor
+  · simp only [erdosRenyi, skipSample_ones, prod_decode_l]
+  · intro t h1 h2 h3
+    rw [mem_keepUniform]
+    exact ⟨⟨t, (mem_product n m t).mpr ⟨h1, h2⟩, dedup_of_nodup h3⟩, h1⟩
+
+/-- `uniform_HSBM` (with the probability-1 fix), every oracle: every edge has exactly `m` distinct members, all in
+    `range (sum sizes)`; an all-zero tensor gives no edge -/
+theorem hsbm_spec (m : Nat) (sizes : List Nat) (ps : List Prob) (gaps : List Nat) (es : List (List Nat)) (rest : List Nat)
+    (hg : ∀ g ∈ gaps, 1 ≤ g) (h : hsbm m sizes ps gaps = some (es, rest)) :
+    (∀ e ∈ es, e.length = m ∧ e.Nodup ∧ ∀ x ∈ e, x < sumL sizes) ∧ ((∀ p ∈ ps, p = .zero) → es = []) := by
+  obtain ⟨h1, h2, _⟩ := hsbmLoop_spec m sizes (cumsum sizes) (sumL sizes) (cumsum_bound sizes) _ ps gaps es rest hg h
+  exact ⟨h1, h2⟩
+
+/-- a block of probability 1 yields every tuple of the block product with distinct entries — the same edges as the
+    skip-sampling branch when every geometric gap is 1 (so `p = 1` is the limit of `p < 1`, without error) -/
+theorem hsbm_block_one (m : Nat) (psizes offs : List Nat) (gaps : List Nat) :
+    hsbmBlock m psizes offs .one gaps = some (keepUniform m ((blockProduct psizes).map (labelOf offs)), gaps) ∧
+    hsbmBlock m psizes offs .mid (List.replicate (prodL psizes + 1) 1) =
+      some (keepUniform m ((blockProduct psizes).map (labelOf offs)), []) :=
+  hsbmBlock_one_eq_ones m psizes offs gaps
+
+/-! ### complete hypergraphs -/
+
+/-- `complete_hypergraph(N, order=d)` contains each `(d+1)`-subset of `range N` exactly once and nothing else -/
+theorem complete_order_spec (n order : Nat) (e : List Nat) :
+    (e ∈ completeOrder n order ↔ e.length = order + 1 ∧ e.Pairwise (· < ·) ∧ ∀ x ∈ e, x < n) ∧
+    (e ∈ completeOrder n order → (completeOrder n order).count e = 1) :=
+  ⟨mem_combinations n (order + 1) e, fun h => List.count_eq_one_of_mem (nodup_combinations _ _) h⟩
+
+/-- `complete_hypergraph(N, max_order=d, include_singletons=s)` contains each subset of `range N` with
+    `(1 if s else 2) ≤ size ≤ d + 1` exactly once and nothing else -/
+theorem complete_max_spec (n maxOrder : Nat) (singletons : Bool) (e : List Nat) :
+    (e ∈ completeMax n maxOrder singletons ↔
+      ((if singletons then 1 else 2) ≤ e.length ∧ e.length ≤ maxOrder + 1) ∧ e.Pairwise (· < ·) ∧ ∀ x ∈ e, x < n) ∧
+    (e ∈ completeMax n maxOrder singletons → (completeMax n maxOrder singletons).count e = 1) := by
+  constructor
+  · unfold completeMax
+    simp only
+    rw [mem_combsSizes]
+    unfold Admissible
+    cases singletons <;> simp <;> omega
+  · intro h
+    exact List.count_eq_one_of_mem (nodup_combsSizes _ _ _) h
+
+/-! ### configuration model, for every choice oracle -/
+
+/-- the generated degree of every node never exceeds its prescribed degree (plus one for the nodes drawn by the
+    remainder adjustment, none when `sum(k) % m = 0`); every edge has exactly `m` distinct members, all keys of `k` -/
+theorem config_degree_le (k : List (Nat × Nat)) (m : Nat) (bump : List Nat) (choices : List (List Nat)) (es : List (List Nat))
+    (hk : (k.map (·.1)).Nodup) (h : configModel k m bump choices = some es) :
+    (∀ v d, (v, d) ∈ k → degIn v es ≤ d + (if v ∈ bump then 1 else 0)) ∧
+    (sumL (k.map (·.2)) % m = 0 → bump = []) ∧
+    (∀ e ∈ es, e.length = m ∧ e.Nodup ∧ ∀ x ∈ e, x ∈ k.map (·.1)) := by
+  unfold configModel at h
+  split at h
+  · simp at h
+  · split at h
+    · simp at h
+    · rename_i k' hk'
+      have hkeys : k'.map (·.1) = k.map (·.1) ∧ (∀ v d, (v, d) ∈ k → (v, d + (if v ∈ bump then 1 else 0)) ∈ k') ∧
+          (sumL (k.map (·.2)) % m = 0 → bump = []) := by
+        unfold cfgDegrees at hk'
+        simp only at hk'
+        split at hk'
+        · rename_i hz
+          split at hk'
+          · rename_i hb
+            simp at hk'; subst hk'
+            have : bump = [] := by simpa using hb
+            subst this
+            exact ⟨rfl, by simp, fun _ => rfl⟩
+          · simp at hk'
+        · rename_i hz
+          split at hk'
+          · simp at hk'; subst hk'
+            exact ⟨bumpDeg_keys k bump, mem_bumpDeg k bump, fun h0 => absurd h0 hz⟩
+          · simp at hk'
+      obtain ⟨e1, e2, e3⟩ := hkeys
+      refine ⟨?_, e3, ?_⟩
+      · intro v d hvd
+        have := cfgLoop_degree m v choices (stubsOf k') es h
+        rw [count_stubsOf v _ k' (by rw [e1]; exact hk) (e2 v d hvd)] at this
+        exact this
+      · intro e he
+        obtain ⟨a, b, c⟩ := cfgLoop_edges m choices (stubsOf k') es h e he
+        exact ⟨a, b, fun x hx => by rw [← e1]; exact mem_stubsOf x k' (c x hx)⟩
+
+/-! ### simplicial complexes -/
+
+/-- `random_simplicial_complex`, every coin sequence: the complex is duplicate-free, downward closed (faces with at
+    least two nodes), and every simplex is a subset of `range n` -/
+theorem random_sc_spec (n : Nat) (sizes : List Nat) (coins : List Bool) (K : List (List Nat)) (rest : List Bool)
+    (h : randomSC n sizes coins = some (K, rest)) :
+    K.Nodup ∧ (∀ s ∈ K, ∀ t, t.Sublist s → 2 ≤ t.length → t ∈ K) ∧
+    (∀ s ∈ K, 2 ≤ s.length ∧ s.Pairwise (· < ·) ∧ ∀ x ∈ s, x < n) := by
+  unfold randomSC at h
+  split at h
+  · simp at h
+  · rename_i es rest' hc
+    simp at h; obtain ⟨rfl, rfl⟩ := h
+    obtain ⟨h1, -⟩ := coinRandom_spec n sizes coins es _ hc
+    refine ⟨nodup_dedup _, ?_, ?_⟩
+    · intro s hs t hts hl
+      rw [mem_closure] at hs ⊢
+      obtain ⟨s0, hs0, hsub, -⟩ := hs
+      exact ⟨s0, hs0, hts.trans hsub, hl⟩
+    · intro s hs
+      rw [mem_closure] at hs
+      obtain ⟨s0, hs0, hsub, hl⟩ := hs
+      obtain ⟨sz, -, hm⟩ := h1 s0 hs0
+      have := admissible_sublist ((mem_combinations _ _ _).mp hm).2 hsub
+      exact ⟨hl, this.1, this.2⟩
+
+/-- the chosen simplices themselves are in the complex (so `p = 1` at an order gives every simplex of that order) -/
+theorem closure_contains (S : List (List Nat)) (s : List Nat) (hs : s ∈ S) (hl : 2 ≤ s.length) : s ∈ closure S :=
+  (mem_closure S s).mpr ⟨s, hs, List.Sublist.refl s, hl⟩
+
+/-- `flag_complex(G, max_order)` / `random_flag_complex`: the simplices are exactly the cliques of `G` with
+    2 … max_order+1 nodes, each once -/
+theorem flag_complex_spec (n : Nat) (adj : Nat → Nat → Bool) (maxOrder : Nat) (e : List Nat) :
+    (e ∈ flagComplex n adj maxOrder ↔
+      (2 ≤ e.length ∧ e.length ≤ maxOrder + 1) ∧ (e.Pairwise (· < ·) ∧ ∀ x ∈ e, x < n) ∧
+        e.Pairwise (fun a b => adj a b = true)) ∧
+    (flagComplex n adj maxOrder).Nodup := by
+  constructor
+  · unfold flagComplex
+    rw [mem_cliquesSizes]
+    unfold Admissible
+    constructor <;> rintro ⟨h1, h2⟩ <;> exact ⟨by omega, h2⟩
+  · exact nodup_cliquesSizes n adj _ _
+
+/-- flag complexes are downward closed -/
+theorem flag_complex_closed (n : Nat) (adj : Nat → Nat → Bool) (maxOrder : Nat) (s t : List Nat)
+    (hs : s ∈ flagComplex n adj maxOrder) (hts : t.Sublist s) (hl : 2 ≤ t.length) : t ∈ flagComplex n adj maxOrder := by
+  rw [(flag_complex_spec n adj maxOrder _).1] at hs ⊢
+  obtain ⟨h1, h2, h3⟩ := hs
+  have := hts.length_le
+  exact ⟨by omega, ⟨h2.1.sublist hts, fun x hx => h2.2 x (hts.subset hx)⟩, h3.sublist hts⟩
+
+/-! ### closed-form generators -/
+
+/-- `ring_lattice(n, d, k, l)`: `n·(k//2)` edges, all members in `range n`; when no wrap-around collision is possible
+    (`l + k//2 + d - 1 ≤ n`, `d ≥ 1`) every edge has exactly `d` distinct members -/
+theorem ring_lattice_spec (n d k l : Nat) :
+    (ringLattice n d k l).length = n * (k / 2) ∧
+    (∀ e ∈ ringLattice n d k l, (∀ x ∈ e, x < n) ∧
+      (1 ≤ d → l + k / 2 + d - 1 ≤ n → e.length = d ∧ e.Nodup)) := by
+  refine ⟨length_ringLattice n d k l, ?_⟩
+  intro e he
+  rw [mem_ringLattice] at he
+  obtain ⟨node, hn, j, hj, rfl⟩ := he
+  constructor
+  · intro x hx
+    rw [List.mem_cons, List.mem_map] at hx
+    rcases hx with rfl | ⟨i, -, rfl⟩
+    · exact hn
+    · exact Nat.mod_lt _ (by omega)
+  · intro hd hadm
+    exact ⟨by simp; omega, ring_edge_nodup n d k l node j hn hj hadm⟩
+
+/-- `sunflower(l, c, m)`, `m ≥ c` (with the termination fix): `l` petals, each containing the core `range c`, each with
+    `m` members below `c + l·(m-c)` -/
+theorem sunflower_spec (l c m : Nat) (hm : c ≤ m) :
+    (sunflower l c m).length = l ∧
+    ∀ e ∈ sunflower l c m, e.length = m ∧ (∀ x < c, x ∈ e) ∧ ∀ x ∈ e, x < c + l * (m - c) := by
+  refine ⟨by simp [sunflower], ?_⟩
+  intro e he
+  rw [mem_sunflower] at he
+  obtain ⟨t, ht, rfl⟩ := he
+  refine ⟨by simp; omega, fun x hx => by simp [hx], ?_⟩
+  intro x hx
+  rw [List.mem_append, List.mem_range, List.mem_map] at hx
+  rcases hx with hx | ⟨i, hi, rfl⟩
+  · have : 0 ≤ l * (m - c) := Nat.zero_le _
+    omega
+  · rw [List.mem_range] at hi
+    have : (t + 1) * (m - c) ≤ l * (m - c) := Nat.mul_le_mul_right _ ht
+    rw [Nat.succ_mul] at this
+    omega
+
+/-- `star_clique`: every edge lies within `range (n_star + n_clique)` and has between 2 and `d_max + 1` (or 2) nodes;
+    partial: exact edge multiset is checked by the correspondence only -/
+theorem star_clique_spec_partial (nStar nClique dMax : Nat) (hs : 1 ≤ nStar) (hc : 1 ≤ nClique) :
+    ∀ e ∈ starClique nStar nClique dMax, (∀ x ∈ e, x < nStar + nClique) ∧ 2 ≤ e.length ∧ e.length ≤ max 2 (dMax + 1) := by
+  intro e he
+  simp only [starClique, List.mem_append, List.mem_map, List.mem_range, List.mem_singleton] at he
+  rcases he with (⟨i, hi, rfl⟩ | rfl) | he
+  · exact ⟨by intro x hx; simp at hx; omega, by simp, by simp⟩
+  · exact ⟨by intro x hx; simp at hx; omega, by simp, by simp⟩
+  · rw [mem_cliqueEdges] at he
+    obtain ⟨h1, -, h3⟩ := he
+    exact ⟨fun x hx => (h3 x hx).2, by omega, by omega⟩
+
 /-! ### non-vacuity -/
 
 example : (List.range (Nat.choose 5 3)).map (indexToEdgeComb 5 3) = (combinations 5 3).map some := comb_decode 5 3
@@ -126,5 +341,15 @@ example : indexToEdgeProd 4 3 3 = [0, 0, 3] := by decide
 example : indexToEdgePartition [8, 8, 2] 4 = [0, 2, 0] := by decide
 example : skipSample 10 [1, 1, 3, 7] = some ([0, 1, 4], []) := by decide
 example : fastRandomOrder 4 2 .mid [2, 3, 9] = some ([[0, 2], [1, 3]], []) := by decide
+example : erdosRenyi 3 2 true .mid [1, 1, 1, 3, 9] = some ([[0, 1], [0, 2], [1, 2]], []) := by decide
+example : hsbm 2 [2, 2] [.one, .mid, .mid, .one] [2, 9, 1, 5] =
+    some ([[0, 1], [1, 0], [0, 3], [2, 0], [2, 3], [3, 2]], []) := by decide
+example : completeMax 3 1 true = [[0], [1], [2], [0, 1], [0, 2], [1, 2]] := by decide
+example : configModel [(1, 1), (2, 2), (3, 3), (4, 3)] 3 [] [[0, 1, 3], [0, 1, 2], [2, 1, 0]] = some [[1, 2, 3]] := by decide
+example : configModel [(0, 2), (1, 1)] 2 [1] [[3, 0], [1, 0]] = some [[1, 0], [1, 0]] := by decide
+example : closure [[0, 1, 2]] = [[1, 2], [0, 2], [0, 1], [0, 1, 2]] := by decide
+example : flagComplex 4 (fun a b => (a, b) ≠ (2, 3)) 2 = [[0, 1], [0, 2], [0, 3], [1, 2], [1, 3], [0, 1, 2], [0, 1, 3]] := by decide
+example : ringLattice 6 3 2 1 = [[0, 2, 3], [1, 3, 4], [2, 4, 5], [3, 5, 0], [4, 0, 1], [5, 1, 2]] := by decide
+example : sunflower 2 2 2 = [[0, 1], [0, 1]] := by decide
 
 end Xgi.C16
